@@ -7,7 +7,7 @@ MAX_JOBS = 10
 KNOWN_EXCLUSION_FLAGS = []
 # expected wall seconds of the slow harnesses (scheduling order only)
 WEIGHT = {"c02_step_flow_mapping_key_d2": 600, "c02_step_flow_mapping_first_key_d2": 600, "c02_step_flow_mapping_key_d0": 600, "c02_step_flow_mapping_first_key_d0": 600,
-          "c04_escape_sequences_short": 550, "c04_escape_sequences": 900, "c19_owned_and_borrowed_resolve_identically": 450, "c09_unquoted_strings_resolve_as_strings_4": 400,
+          "c04_escape_sequences_short": 550, "c04_escape_sequences": 900, "c09_unquoted_strings_resolve_as_strings_4": 400,
           "c09_unquoted_strings_resolve_as_strings_3": 390, "c09_escape_str_roundtrip_1": 300, "c08_owned_3": 350, "c10_skip_ws_to_eol": 360, "c12_skip_to_next_token_block_2": 330,
           "c18_decode_loop_terminates_2": 280, "c02_step_block_node_tags_d2": 330, "c01_strinput_required_methods_no_panic": 260}  # names of `pub const X: bool` switches in .work/gen/known.rs
 
@@ -35,6 +35,8 @@ T = ("thorough",)
 def H(name, mod, funcs, bound, tiers=Q, stubs=(), timeout=None, flags=(), **kw):
     h = {"name": name, "mod": mod, "crate": MODULES[mod]["crate"], "funcs": list(funcs), "bound": bound,
          "tiers": tiers, "stubs": list(stubs), "flags": list(flags)}
+    if mod == "parser.input_str":
+        h["native_probe"] = "c10_native_probe"
     if timeout:
         h["timeout"] = timeout
     h.update(kw)
@@ -317,7 +319,7 @@ PROPERTIES["C17"] = {
                   "under Kani. Longer call histories follow by induction on the step (argued). " + LM_STUB,
     "prepare": ["gen_parser"],
     "harnesses": [H("c17_wrapper_" + w, "lm.parser", PEEK_FUNCS, "look-ahead state / call order " + w + "; span of the cached event symbolic, next token a scalar", stubs=[LM_STUB, INJ])
-                  for w in ["cached_peek_next", "cached_next", "fresh_peek_next", "fresh_next", "ended_peek_next", "ended_next"]] + [
+                  for w in ["cached_peek_next", "cached_next", "fresh_next", "ended_peek_next", "ended_next"]] + [
                   ] + [H("c17_fuse_" + h, "lm.parser", PEEK_FUNCS, "token template [StreamEnd], call history " + h.replace("_", ", "), stubs=[LM_STUB, INJ])
                        for h in ["peek_next_next_peek", "next_next_peek_next", "peek_peek_next_next", "next_peek_next_peek"]],
     "assumptions": [LM_STUB, INJ],
@@ -402,7 +404,7 @@ PROPERTIES["C19"] = {
                   "and hashing depend on the data only (hash-trace equality under arbitrary spans); Scalar::into_owned/as_scalar round trip (C08 harness).",
     "level_note": "Structural identity of the four node types for whole documents, and deferred-vs-eager equality for mappings, go through LinkedHashMap / the "
                   "loader and are outside the claim (not finishing under Kani). f64::from_str is a contract stub.",
-    "harnesses": [H("c19_owned_and_borrowed_resolve_identically", "ext.c19", ["ScalarOwned::parse_from_cow_and_metadata", "Scalar::parse_from_cow_and_metadata", "Scalar::into_owned"], "texts 0..2 over {1 0 x . - ~ t n a e} x 5 styles x 3 tag choices", stubs=[F64_STUB]),
+    "harnesses": [H("c19_owned_and_borrowed_" + t, "ext.c19", ["ScalarOwned::parse_from_cow_and_metadata", "Scalar::parse_from_cow_and_metadata", "Scalar::into_owned"], "texts 0..2 over {1 0 x . - ~ t n a e} x 5 styles, tag choice " + t, stubs=[F64_STUB]) for t in ["untagged", "int_tag", "str_tag"]] + [
                   ] + [H("c19_parse_representation_" + n, "ext.c19", ["Yaml::parse_representation", "Yaml::parse_representation_recursive", "Yaml::take"], "node variant " + n + " x texts 0..2 x 5 styles x any i64", stubs=[F64_STUB])
                        for n in ["integer", "string", "alias", "badvalue", "null_recursive", "repr", "repr_recursive"]] + [
                   ] + [H("c19_marked_eq_hash_" + n, "ext.c19", ["<MarkedYaml as PartialEq>::eq", "<MarkedYaml as Hash>::hash", "<YamlData as Hash>::hash (derived)"], "data variant " + n + " x arbitrary payloads x arbitrary spans")
